@@ -2,6 +2,7 @@
 # usage: try_mutant.sh <patch.diff> <PROPERTY>...   — applies the change to /repo, runs the
 # registered quick checks, and undoes it straight afterwards.
 P=$1; shift
+rm -rf /tmp/.evidence_keep && cp -r /verif/evidence /tmp/.evidence_keep
 cd /repo && git apply --check $P || { echo "patch does not apply"; exit 3; }
 git apply $P
 for prop in "$@"; do
@@ -10,3 +11,5 @@ for prop in "$@"; do
   echo "$out" | grep -E "^  obligation|failing input" | head -4 | cut -c1-300
 done
 cd /repo && git checkout -- . && git status --short | head -3
+# evidence written while the change was applied describes the changed tree: put the files of the unchanged tree back
+rm -rf /verif/evidence && mv /tmp/.evidence_keep /verif/evidence
